@@ -712,6 +712,7 @@ func (db *DB) rollbackJournalSegment(ctx context.Context, r *JournalReader, dbFi
 		// Like SQLite, stop at a record for page zero or the lock page and skip
 		// pages beyond the size of the database before the transaction.
 		if pgno == 0 || pgno == ltx.LockPgno(db.pageSize) {
+			r.done = true
 			return nil
 		} else if pgno > r.commit {
 			continue
@@ -3887,6 +3888,7 @@ type JournalReader struct {
 	frame  []byte      // frame buffer
 
 	isValid    bool   // true, if at least one valid header exists
+	done       bool   // true, if a bad record ended the playback
 	frameN     int32  // Number of pages in the segment
 	nonce      uint32 // A random nonce for the checksum
 	commit     uint32 // Initial size of the database in pages
@@ -3912,6 +3914,13 @@ func (r *JournalReader) IsValid() bool { return r.isValid }
 
 // Next reads the next segment of the journal. Returns io.EOF if no more segments exist.
 func (r *JournalReader) Next() (err error) {
+	// Like SQLite, a record that cannot be played back ends the playback of the
+	// whole journal, not only of its segment. What follows it may be left over
+	// from an earlier transaction (persistent journal).
+	if r.done {
+		return io.EOF
+	}
+
 	// Determine journal size on initial call.
 	if r.fi == nil {
 		if r.fi, err = r.f.Stat(); err != nil {
@@ -4020,7 +4029,8 @@ func (r *JournalReader) ReadFrame() (pgno uint32, data []byte, err error) {
 
 	// Read the next frame from the journal.
 	n, err := internal.ReadFullAt(r.f, r.frame, r.offset)
-	if err == io.ErrUnexpectedEOF {
+	if err == io.ErrUnexpectedEOF || err == io.EOF {
+		r.done = true
 		return 0, nil, io.EOF
 	} else if err != nil {
 		return 0, nil, err
@@ -4031,6 +4041,7 @@ func (r *JournalReader) ReadFrame() (pgno uint32, data []byte, err error) {
 	chksum := binary.BigEndian.Uint32(r.frame[len(r.frame)-4:])
 
 	if chksum != JournalChecksum(data, r.nonce) {
+		r.done = true
 		return 0, nil, io.EOF
 	}
 
